@@ -85,6 +85,9 @@ def plan(tier, seed):
     nw4 = 3 if tier == 'quick' else 8
     for i in range(nw4):
         shards.append({'name': 'w4_%d' % i, 'kind': 'w4', 'combos': w4[i::nw4], 'seed': seed * 1000 + 50 + i})
+    shards.append({'name': 'structured', 'kind': 'structured', 'Ms': [64, 256, 1024] if tier == 'quick' else
+                   [32, 64, 128, 256, 512, 1024, 2048], 'n_variants': 60 if tier == 'quick' else 800,
+                   'seed': seed * 1000 + 9})
     shards.append({'name': 'ambig', 'kind': 'ambig', 'n': 60 if tier == 'quick' else 800, 'seed': seed * 1000 + 8})
     shards.append({'name': 'huge', 'kind': 'huge', 'sizes': [300, 33000, 66000] if tier == 'quick' else
                    [260, 300, 32770, 40000, 65540, 70000, 140000],
@@ -145,6 +148,15 @@ def materialise(case):
             L, R = gen.huge_tail_tables(case['n'], case['tail'])
         else:
             L, R = gen.huge_tables(case['n'])
+        return {'api': T.MEASURE_JOIN[case['measure']], 'ltable': L, 'rtable': R, 'l_key': 'id',
+                'r_key': 'id', 'l_attr': 's', 'r_attr': 's', 'tok': {'kind': 'ws', 'return_set': True},
+                'threshold': case['threshold'], 'comp_op': case.get('comp_op', '>='),
+                'n_jobs': case.get('n_jobs', 1)}
+    if g in ('modular', 'variants'):
+        if g == 'modular':
+            L, R = gen.modular_tables(case['M'], case.get('k', 3))
+        else:
+            L, R = gen.variant_tables(random.Random(case['seed']))
         return {'api': T.MEASURE_JOIN[case['measure']], 'ltable': L, 'rtable': R, 'l_key': 'id',
                 'r_key': 'id', 'l_attr': 's', 'r_attr': 's', 'tok': {'kind': 'ws', 'return_set': True},
                 'threshold': case['threshold'], 'comp_op': case.get('comp_op', '>='),
@@ -316,6 +328,26 @@ def run_shard(shard, rec):
                 rec.count('large_table_cases')
         rec.sample({'workload': 'HUGE', 'sizes': shard['sizes'], 'note': 'one pair of records with n '
                     'tokens sharing all but 3, beyond 2**8 / 2**15 / 2**16 tokens'}, limit=1)
+    elif kind == 'structured':
+        i = 0
+        for M in shard['Ms']:
+            for (m, t) in [('JACCARD', 1.0), ('COSINE', 0.8), ('DICE', 0.66), ('JACCARD', 0.5)]:
+                if rec.tier == 'quick' and i % 2:
+                    i += 1
+                    continue
+                case = {'gen': 'modular', 'M': M, 'k': 3 + (i % 2), 'measure': m, 'threshold': t, 'n_jobs': 1 + i % 2}
+                st = run_case(case, rec, ssj)
+                rec.case(sig=('modular', M, m, t), nontrivial=bool(st and st.get('required')))
+                rec.count('modular_rank_cases')
+                i += 1
+        for j in range(shard['n_variants']):
+            case = {'gen': 'variants', 'seed': shard['seed'] * 100000 + j, 'measure': MEASURES3[j % 3],
+                    'threshold': (0.8, 0.7, 0.6, 0.9)[j % 4], 'n_jobs': 1 + (j % 3 == 2)}
+            st = run_case(case, rec, ssj)
+            rec.case(sig=('variants', case['seed']), nontrivial=bool(st and st.get('required')))
+            rec.count('variant_table_cases')
+        rec.sample({'workload': 'STRUCTURED', 'note': 'records whose token ranks are congruent modulo M (M = '
+                    '%r); adjacent variants sharing their rare leading tokens' % (shard['Ms'],)}, limit=1)
     elif kind == 'ambig':
         for i in range(shard['n']):
             case = {'gen': 'ambig', 'seed': shard['seed'] * 100000 + i}
